@@ -214,7 +214,7 @@ def run(ctx, res):
     res.floor("C04.R4", 8)
     cmpf = prog.need("_mtbl_merger_compare", U)
     res.saw(cmpf)
-    evc = APE.run(prog, cg, cmpf, bound=1)
+    evc = APE.run(prog, cg, cmpf, bound=APE.BOUND)
     for p in evc.paths:
         if p.end != "exit":
             continue
@@ -324,7 +324,7 @@ def run(ctx, res):
     targets.append((mm, "mtbl_writer_add"))
     for f, addname in targets:
         res.saw(f)
-        evp = APE.run(prog, ctx.cg_all if f.unit.startswith("src/") else cg, f, bound=1)
+        evp = APE.run(prog, ctx.cg_all if f.unit.startswith("src/") else cg, f, bound=APE.BOUND)
         seen = 0
         for p in evp.paths:
             evs = [e for e in p.events if e.kind == "call"]
